@@ -6,6 +6,7 @@ import (
 	"encoding/json"
 	"errors"
 	"fmt"
+	"math/bits"
 	"sort"
 	"strconv"
 	"strings"
@@ -689,8 +690,114 @@ func Run(r *fw.Run) {
 	_, rd, _ := one(lg, 7, 2, []int64{0}, nil, nil, nil)
 	r.Sample(mkCase(7, 2, []int64{0}, []faultT{{2, "flip", 0}}, rd))
 	reuse(r, lg)
+	hugeTiles(r)
 	pathCases(r)
 }
+
+// hugeTiles reads through tiles of virtual logs of identical records (one hash per level, so tiles and the
+// RFC 6962 tree hash of any size can be computed without storing anything) with up to 2^62 records: tile
+// numbers beyond 2^32 and 2^56, single positions and pairs of positions that are far apart.
+func hugeTiles(r *fw.Run) {
+	l := fw.NewLocal()
+	defer r.Merge(l)
+	leaf := tlog.RecordHash([]byte("same\n"))
+	level := []tlog.Hash{leaf}
+	for i := 1; i <= 63; i++ {
+		level = append(level, tlog.NodeHash(level[i-1], level[i-1]))
+	}
+	memo := map[int64]tlog.Hash{}
+	var mth func(n int64) tlog.Hash
+	mth = func(n int64) tlog.Hash {
+		if n&(n-1) == 0 {
+			return level[bits.TrailingZeros64(uint64(n))]
+		}
+		if h, ok := memo[n]; ok {
+			return h
+		}
+		k := int64(1) << uint(63-bits.LeadingZeros64(uint64(n-1)))
+		h := tlog.NodeHash(mth(k), mth(n-k))
+		memo[n] = h
+		return h
+	}
+	sizes := []int64{1<<33 + 7, 1<<40 + 1, 1<<56 + 3, 1<<57 + 5, 1 << 58, 1<<60 + 12345, 1<<61 + 1, 1<<62 - 1}
+	heights := []int{1, 2, 4, 5, 8}
+	r.Bounds["virtual_huge_tile_reads"] = fmt.Sprintf("sizes %v x heights %v", sizes, heights)
+	for _, n := range sizes {
+		for _, h := range heights {
+			vr := &virtualTiles{h: h, level: level}
+			hr := tlog.TileHashReader(tlog.Tree{N: n, Hash: mth(n)}, vr)
+			var idx [][]int64
+			var single []int64
+			for _, lev := range []int{0, 1, h, 2 * h, 3*h + 1, 40} {
+				cnt := n >> uint(lev)
+				for _, off := range []int64{0, 1, cnt / 2, cnt - 1, 1 << 32, 1<<32 + 1, 1 << uint(56-lev%8), 1<<56 + 1, 1 << uint(56+h)} {
+					if off >= 0 && off < cnt {
+						single = append(single, tlog.StoredHashIndex(lev, off))
+					}
+				}
+			}
+			for _, x := range single {
+				idx = append(idx, []int64{x})
+			}
+			for i := 0; i+1 < len(single); i += 2 {
+				idx = append(idx, []int64{single[i], single[len(single)-1-i]}, []int64{single[len(single)-1-i], single[i], single[i+1]})
+			}
+			for _, ix := range idx {
+				l.States++
+				l.Execs++
+				l.Transitions++
+				var got []tlog.Hash
+				var err error
+				pan := ""
+				func() {
+					defer func() {
+						if e := recover(); e != nil {
+							pan = fmt.Sprint(e)
+						}
+					}()
+					got, err = hr.ReadHashes(ix)
+				}()
+				c := caseT{Kind: "huge", N: 0, H: h, Indexes: ix, Path: fmt.Sprint(n)}
+				switch {
+				case pan != "":
+					r.Violation(fmt.Sprintf("huge:%d:%d:%v", n, h, ix), fmt.Sprintf("reading %v through honest tiles of a %d-record log (h=%d) panicked: %s", ix, n, h, pan), c)
+				case err != nil:
+					r.Violation(fmt.Sprintf("huge:%d:%d:%v", n, h, ix), fmt.Sprintf("reading %v through honest tiles of a %d-record log (h=%d) failed: %v", ix, n, h, err), c)
+				default:
+					for k, x := range ix {
+						lev, _ := tlog.SplitStoredHashIndex(x)
+						if got[k] != level[lev] {
+							r.Violation(fmt.Sprintf("huge:%d:%d:%v", n, h, ix), fmt.Sprintf("reading %v through honest tiles of a %d-record log (h=%d): hash %d is not the true stored hash", ix, n, h, k), c)
+						}
+					}
+					l.Nontrivial++
+				}
+			}
+		}
+	}
+}
+
+type virtualTiles struct {
+	h     int
+	level []tlog.Hash
+}
+
+func (v *virtualTiles) Height() int { return v.h }
+func (v *virtualTiles) ReadTiles(tiles []tlog.Tile) ([][]byte, error) {
+	out := make([][]byte, len(tiles))
+	for i, t := range tiles {
+		if t.L < 0 || t.L*v.h >= len(v.level) {
+			return nil, fmt.Errorf("no such tile %s", t.Path())
+		}
+		d := make([]byte, 0, t.W*tlog.HashSize)
+		for j := 0; j < t.W; j++ {
+			d = append(d, v.level[t.L*v.h][:]...)
+		}
+		out[i] = d
+	}
+	return out, nil
+}
+func (v *virtualTiles) SaveTiles(tiles []tlog.Tile, data [][]byte) {}
 
 // reuse explores call histories on ONE TileHashReader value: a read under a fault, then honest reads of
 // every index, then the first read again without the fault. Whatever the first call did, the later ones
